@@ -323,3 +323,34 @@ def call(fn, *a, **k):
         return ("ok", fn(*a, **k))
     except Exception as e:  # noqa: BLE001
         return ("err", err_kind(e), repr(e)[:300])
+
+
+# ------------------------------------------------------------------ used objects
+WARM_OPS = ["groups", "key_count", "sum_transform", "head", "rolling_by_groups", "apply_aligned", "median", "cumsum"]
+
+
+def warm(gb, how, n):
+    """Use a grouping before the call under test: fills its caches and may re-organise its key representation
+    (every property quantifies over groupings, not over FRESH groupings).  Errors of the warming call are ignored."""
+    if how is None:
+        return
+    v = pd.Series(np.arange(n, dtype="float64"))
+    try:
+        if how == "groups":
+            gb.groups
+        elif how == "key_count":
+            gb.key_count
+        elif how == "sum_transform":
+            gb.sum(v.to_numpy(), transform=True)
+        elif how == "head":
+            gb.head(v.to_numpy(), 1)
+        elif how == "rolling_by_groups":
+            gb.rolling_sum(v.to_numpy(), 2, min_periods=1, index_by_groups=True)
+        elif how == "apply_aligned":
+            gb.apply(v.to_numpy(), np.cumsum)
+        elif how == "median":
+            gb.median(v.to_numpy())
+        elif how == "cumsum":
+            gb.cumsum(v.to_numpy())
+    except Exception:  # noqa: BLE001
+        pass
